@@ -8,6 +8,7 @@
 package main
 
 import (
+	"crypto/sha256"
 	"encoding/json"
 	"fmt"
 	"os"
@@ -20,6 +21,8 @@ import (
 	"strings"
 	"sync"
 	"time"
+
+	"verif/sig"
 )
 
 // ---------------------------------------------------------------------------
@@ -75,6 +78,13 @@ var props = map[string]propCfg{
 	"C10": cfgStore(cfgA("C10", "seeded histories with the persist loop live on the real JsonDataStore (70%) or an in-memory store, job variables of every JSON type, failing tasks, store write errors; crash-and-restart as a scheduling choice at every step, including inside a save; non-trivial = a restart loaded a snapshot containing jobs; distinct = distinct trace hash", false)),
 	"C11": cfgStore(cfgA("C11", "seeded histories with one or two Shutdown calls (graceful / forced with deadlines 0ms-5s, with and without cancelling the runner context first) begun in any state, concurrent schedule/cancel/save clients, settle actions that wait three persist pauses; non-trivial = a Shutdown returned or persist liveness was evaluated; distinct = distinct trace hash", false)),
 	"C12": cfgStore(cfgA("C12", "seeded retention_count x retention_period x several pipelines, clock jumps between jobs, reloads that drop pipelines, explicit saves interleaved with activity, restarts, log removal errors; the real FileOutputStore holds the logs; non-trivial = a save removed jobs; distinct = distinct trace hash", false)),
+	"C13": func() propCfg {
+		c := cfgStore(cfgA("C13", "race build (-race) of the same simulator with the simulator's own hand-offs hidden from the detector: 2-4 clients issue every exported operation (schedule, cancel, read, list, iterate, save, reload, shutdown) while jobs, timers and the persist loop run; readers park inside IterateJobs/ReadJob callbacks and log removal parks inside a save, so that one read-lock holder runs in the middle of another's critical section; oracle = race detector report / runtime fatal error / panic involving prunner code, as a deterministic function of the tape; non-trivial = a read-lock holder ran while another one was parked inside; distinct = distinct trace hash", true))
+		c.Race = true
+		c.QuickS = 25
+		c.Assume = append(append([]string{}, c.Assume...), "the race detector keeps a bounded access history per memory location: two accesses far apart can be missed", "WaitGroup Add-concurrent-with-Wait annotations of the detector are counted, not reported (DESIGN §2.8)", "no API-level oracle runs in this configuration: the driver makes no calls into the runner, so that it adds no happens-before edges")
+		return c
+	}(),
 	"C15": cfgA("C15", "seeded histories with settle-and-probe actions (list, then schedule at once), HTTP and direct reads; non-trivial = a schedulable probe or HTTP listing was evaluated; distinct = distinct trace hash", false),
 	"C16": cfgA("C16", "seeded old/new definition pairs produced by mutation (tasks added/removed/rewired, scripts, env, delay, limits, strategy, pipelines dropped/added), reloads at seeded points of job lives; non-trivial = a reload happened while a job was waiting or running; distinct = distinct trace hash", true),
 }
@@ -304,7 +314,7 @@ func loadKnown() KnownFile {
 func runWorker(rc *runCtx, job WorkerJob, extraEnv ...string) (*WorkerOut, string, error) {
 	spec, _ := json.Marshal(job)
 	cmd := exec.Command(rc.bin, "-test.run", "^TestWorker$", "-test.timeout", "0")
-	cmd.Env = append(os.Environ(), "VERIF_JOB="+string(spec), "GOMAXPROCS=2", "GOMEMLIMIT=3GiB")
+	cmd.Env = append(os.Environ(), "VERIF_JOB="+string(spec), "GOMAXPROCS=2", "GOMEMLIMIT=3GiB", "GORACE=halt_on_error=0 history_size=3")
 	cmd.Env = append(cmd.Env, extraEnv...)
 	cmd.Dir = verifDir
 	var stderr strings.Builder
@@ -382,6 +392,8 @@ func check(prop, tier string) int {
 	seedBase := rc.seed * 1_000_003
 	outs := make([]*WorkerOut, 0, nw)
 	var crashes []crashInfo
+	var raceLogs []string
+	restarts := 0
 	var mu sync.Mutex
 	var wg sync.WaitGroup
 	trouble := []string{}
@@ -391,7 +403,7 @@ func check(prop, tier string) int {
 			defer wg.Done()
 			startK := 0
 			tEnd := time.Now().Add(time.Duration(deadline * float64(time.Second)))
-			for attempt := 0; attempt < 6; attempt++ {
+			for attempt := 0; attempt < 40; attempt++ {
 				remaining := time.Until(tEnd).Seconds()
 				if remaining < 1 && attempt > 0 {
 					return
@@ -402,6 +414,9 @@ func check(prop, tier string) int {
 				if out != nil {
 					mu.Lock()
 					outs = append(outs, out)
+					if cfg.Race {
+						raceLogs = append(raceLogs, stderr)
+					}
 					mu.Unlock()
 					return
 				}
@@ -421,7 +436,19 @@ func check(prop, tier string) int {
 				if partial != nil {
 					outs = append(outs, partial)
 				}
-				crashes = append(crashes, crashInfo{Seed: seed, Stderr: stderr})
+				if strings.Contains(stderr, "WATCHDOG") {
+					trouble = append(trouble, fmt.Sprintf("worker %d: watchdog fired at seed %d (the simulator hung)\n%s", w, seed, tail(stderr, 15)))
+					mu.Unlock()
+					return
+				}
+				if cfg.Race && sig.Panic(stderr) == "" {
+					// race build: a report makes the testing package end the test function, occasionally the whole
+					// worker; the reports themselves are evaluated below, the worker is simply restarted
+					raceLogs = append(raceLogs, stderr)
+					restarts++
+				} else {
+					crashes = append(crashes, crashInfo{Seed: seed, Stderr: stderr})
+				}
 				mu.Unlock()
 				startK = k + 1
 			}
@@ -470,9 +497,79 @@ func check(prop, tier string) int {
 		merged.Violations = append(merged.Violations, b2.Violations...)
 	}
 
+	// 2b. race configuration (C13): reports printed by the detector, attributed to seeds by the worker's markers
+	if cfg.Race {
+		nrep, nwg, nharness := 0, 0, 0
+		type cand struct {
+			seed  uint64
+			n     int // relevant reports in that seed's run: the more, the more robustly the run reproduces
+			text  string
+			total int
+		}
+		best := map[string]*cand{}
+		for _, lg := range raceLogs {
+			parts := strings.Split(lg, "VERIF-SEED ")
+			for _, part := range parts[1:] {
+				var seed uint64
+				fmt.Sscan(part, &seed)
+				reps := sig.Races(part)
+				rel := 0
+				for _, r := range reps {
+					if r.Sig != "" {
+						rel++
+					}
+				}
+				for _, r := range reps {
+					nrep++
+					switch {
+					case r.WaitGroup:
+						nwg++
+					case r.Sig == "":
+						nharness++
+					default:
+						c := best[r.Sig]
+						if c == nil {
+							c = &cand{}
+							best[r.Sig] = c
+						}
+						c.total++
+						if rel > c.n {
+							c.seed, c.n, c.text = seed, rel, r.Text
+						}
+					}
+				}
+			}
+		}
+		var sigsByFreq []string
+		for k := range best {
+			sigsByFreq = append(sigsByFreq, k)
+		}
+		sort.Slice(sigsByFreq, func(i, j int) bool {
+			a, b := best[sigsByFreq[i]], best[sigsByFreq[j]]
+			if a.total != b.total {
+				return a.total > b.total
+			}
+			return sigsByFreq[i] < sigsByFreq[j]
+		})
+		for _, k := range sigsByFreq {
+			c := best[k]
+			crashes = append(crashes, crashInfo{Seed: c.seed, Stderr: "==================\n" + c.text + "\n=================="})
+		}
+		merged.Extra["distinct_race_signatures"] = float64(len(best))
+		merged.Extra["worker_restarts_after_race_report"] = float64(restarts)
+		merged.Extra["race_reports_total"] = float64(nrep)
+		merged.Extra["waitgroup_annotations"] = float64(nwg)
+		merged.Extra["race_reports_in_harness_code_only"] = float64(nharness)
+	}
+
 	// 3. runs that killed the process
 	aborted := 0
 	seenCrashSig := map[string]bool{}
+	type crashJob struct {
+		c   crashInfo
+		sig string
+	}
+	var cjobs []crashJob
 	for _, c := range crashes {
 		sig := panicSignature(c.Stderr)
 		if strings.Contains(c.Stderr, "WATCHDOG") {
@@ -488,16 +585,42 @@ func check(prop, tier string) int {
 			continue
 		}
 		seenCrashSig[sig] = true
-		fv, err := analyseCrash(rc, c.Seed, sig)
-		if err != nil {
-			fmt.Fprintf(os.Stderr, "verifctl: crash at seed %d could not be analysed: %v\n", c.Seed, err)
-			return 2
+		maxAnalyses := 2
+		if tier == "thorough" {
+			maxAnalyses = 8
 		}
-		if fv == nil {
+		if len(cjobs) >= maxAnalyses {
 			aborted++
 			continue
 		}
-		merged.Violations = append(merged.Violations, *fv)
+		cjobs = append(cjobs, crashJob{c, sig})
+	}
+	{
+		var cwg sync.WaitGroup
+		var cerr error
+		for _, cj := range cjobs {
+			cwg.Add(1)
+			go func(cj crashJob) {
+				defer cwg.Done()
+				fv, err := analyseCrash(rc, cj.c.Seed, cj.sig)
+				mu.Lock()
+				defer mu.Unlock()
+				if err != nil {
+					cerr = fmt.Errorf("crash at seed %d could not be analysed: %v", cj.c.Seed, err)
+					return
+				}
+				if fv == nil {
+					aborted++
+					return
+				}
+				merged.Violations = append(merged.Violations, *fv)
+			}(cj)
+		}
+		cwg.Wait()
+		if cerr != nil {
+			fmt.Fprintln(os.Stderr, "verifctl:", cerr)
+			return 2
+		}
 	}
 
 	// 4. classify and confirm violations
@@ -512,6 +635,14 @@ func check(prop, tier string) int {
 			continue
 		}
 		ok, hashOK, err := replayFile(rc, fv.Replay)
+		if err == nil && !ok && fv.V.Rule == "race" {
+			// the detector's report for one schedule is not perfectly stable across processes (bounded access
+			// history): a report that cannot be reproduced is dropped and counted, it is neither a violation nor trouble
+			if ok, hashOK, err = replayFile(rc, fv.Replay); err == nil && !ok {
+				merged.Inconclusive["race report not reproducible in a fresh process"]++
+				continue
+			}
+		}
 		if err != nil || !ok {
 			fmt.Fprintf(os.Stderr, "verifctl: violation %s/%s (seed %d) did not reproduce from %s in a fresh process (err=%v) — harness trouble\n", fv.V.Prop, fv.V.Rule, fv.Seed, fv.Replay, err)
 			return 2
@@ -579,34 +710,18 @@ func tail(s string, n int) string {
 	return strings.Join(lines, "\n")
 }
 
-var frameRe = regexp.MustCompile(`(?m)^(github\.com/Flowpack/prunner[^\s(]*)`)
-
-// panicSignature: "<first line of the panic> @ <first frames in prunner code>".
-func panicSignature(stderr string) string {
-	idx := strings.Index(stderr, "panic: ")
-	if i := strings.Index(stderr, "fatal error: "); i >= 0 && (idx < 0 || i < idx) {
-		idx = i
-	}
-	if idx < 0 {
-		return ""
-	}
-	rest := stderr[idx:]
-	first := rest
-	if i := strings.Index(rest, "\n"); i >= 0 {
-		first = rest[:i]
-	}
-	// strip addresses
-	first = regexp.MustCompile(`0x[0-9a-f]+`).ReplaceAllString(first, "0x?")
-	frames := frameRe.FindAllString(rest, 3)
-	return first + " @ " + strings.Join(frames, " < ")
-}
+func panicSignature(stderr string) string { return sig.Any(stderr) }
 
 // analyseCrash re-runs the seed in its own process with a crash log, decides
 // what the run violates, minimises it out of process and writes the replay file.
 func analyseCrash(rc *runCtx, seed uint64, sig string) (*FoundViolation, error) {
-	out := filepath.Join(rc.work, fmt.Sprintf("crash-%d.json", seed))
+	hs := sha256.Sum256([]byte(sig))
+	out := filepath.Join(rc.work, fmt.Sprintf("crash-%d-%x.json", seed, hs[:3]))
 	job := WorkerJob{Mode: "crash", Property: rc.cfg.ID, Profile: rc.cfg.Profile, OnlySeed: &seed, Out: out,
-		ReplayDir: filepath.Join(rc.work, "replays"), MinBudget: 120}
+		ReplayDir: filepath.Join(rc.work, "replays"), MinBudget: 150}
+	if strings.HasPrefix(sig, "DATA RACE") {
+		job.MinBudget = 250 // candidates run inside the analysing process
+	}
 	extra := []string{"VERIF_PANIC_SIG=" + sig}
 	if rc.cfg.PanicIsViolation {
 		extra = append(extra, "VERIF_PANIC_IS_VIOLATION=1")
@@ -720,7 +835,7 @@ func replayFile(rc *runCtx, path string) (reproduced, hashMatch bool, err error)
 	po := filepath.Join(rc.work, fmt.Sprintf("probe-%d.json", time.Now().UnixNano()))
 	cl := po + ".crashlog"
 	cmd := exec.Command(rc.bin, "-test.run", "^TestProbe$", "-test.timeout", "0")
-	cmd.Env = append(os.Environ(), "VERIF_PROBE="+path, "VERIF_PROBE_OUT="+po, "VERIF_CRASHLOG="+cl, "GOMAXPROCS=2")
+	cmd.Env = append(os.Environ(), "VERIF_PROBE="+path, "VERIF_PROBE_OUT="+po, "VERIF_CRASHLOG="+cl, "GOMAXPROCS=2", "GORACE=halt_on_error=0 history_size=3")
 	cmd.Dir = verifDir
 	var stderr strings.Builder
 	cmd.Stderr = &stderr
@@ -746,9 +861,13 @@ func replayFile(rc *runCtx, path string) (reproduced, hashMatch bool, err error)
 	} else if runErr != nil && panicSignature(stderr.String()) == "" {
 		return false, false, fmt.Errorf("probe failed: %v\n%s", runErr, tail(stderr.String(), 20))
 	}
-	if rf.Rule == "panic" {
-		sig := panicSignature(stderr.String())
-		return sig != "" && sig == rf.PanicSig, true, nil
+	if rf.PanicSig != "" {
+		for _, got := range sig.All(stderr.String()) {
+			if got == rf.PanicSig {
+				return true, true, nil
+			}
+		}
+		return false, true, nil
 	}
 	for _, v := range viol {
 		if v.Prop == rf.Property && v.Rule == rf.Rule {
